@@ -12,7 +12,7 @@ import shutil
 import subprocess
 import sys
 
-from harness import core, npc, npc_check, tlc, tlaval
+from harness import core, npc, npc_check, npc_ctor, tlc, tlaval
 
 TIERS = {
     'quick': dict(n_configs=5, mc_ops=1, sim_num=6, sim_ops=6, procs=4, workers=4, timeout=600),
@@ -123,6 +123,8 @@ def check(ctx):
                 break
         if len(a['records']) != len(b['records']):
             ctx.violation(dict(kind='config-diff', spec='NpcProgram', op='*', clause='length'), dict(behaviour=bj))
+    # second specification: constructors, charge-changing methods, grids, labels, element-wise operations (spec/NpcCtor.tla)
+    npc_ctor.run_phase(ctx, 'C04')
     ctx.exhaustive = False
 
 
